@@ -96,14 +96,14 @@ pub fn strict_case(s: &str) -> Option<String> {
     None
 }
 
-pub fn hashn_case(bytes: &[u8], name: &[u8], table: &Mutex<BTreeMap<(Vec<u8>, usize), u8>>) -> Option<String> {
+pub fn hashn_case(bytes: &[u8], name: &[u8], table: &Mutex<BTreeMap<(Vec<u8>, usize), (u8, Vec<u8>)>>) -> Option<(String, Option<Vec<u8>>)> {
     let a = DnaString::from_acgt_bytes_hashn(bytes, name);
     let b = DnaString::from_acgt_bytes_hashn(bytes, name);
     if a != b {
-        return Some("two runs on the same input differ".into());
+        return Some(("two runs on the same input differ".into(), None));
     }
     if a.len() != bytes.len() || a != DnaString::from_bytes(&a.to_bytes()) {
-        return Some("length or raw value wrong".into());
+        return Some(("length or raw value wrong".into(), None));
     }
     let mut t = table.lock().unwrap();
     for (i, c) in bytes.iter().enumerate() {
@@ -111,16 +111,16 @@ pub fn hashn_case(bytes: &[u8], name: &[u8], table: &Mutex<BTreeMap<(Vec<u8>, us
         match bits(*c) {
             Some(x) => {
                 if g != x {
-                    return Some(format!("ACGT byte {:?} at {} became {}", *c as char, i, g));
+                    return Some((format!("ACGT byte {:?} at {} became {}", *c as char, i, g), None));
                 }
             }
             None => {
                 if g > 3 {
-                    return Some(format!("substitute {} at {} is not a base", g, i));
+                    return Some((format!("substitute {} at {} is not a base", g, i), None));
                 }
-                let e = t.entry((name.to_vec(), i)).or_insert(g);
-                if *e != g {
-                    return Some(format!("substitute at (name {:?}, pos {}) is {} here but {} for another input: not a function of (read name, position)", String::from_utf8_lossy(name), i, g, *e));
+                let e = t.entry((name.to_vec(), i)).or_insert((g, bytes.to_vec()));
+                if e.0 != g {
+                    return Some((format!("substitute at (name {:?}, pos {}) is {} here but {} for input {:?}: not a function of (read name, position)", String::from_utf8_lossy(name), i, g, e.0, String::from_utf8_lossy(&e.1)), Some(e.1.clone())));
                 }
             }
         }
@@ -239,12 +239,12 @@ pub fn check(tier: &str, rep: &mut Report) {
     let table = Mutex::new(BTreeMap::new());
     let hn = strings_over(&[b'A', b'C', b'g', b't', b'N', b'n', b'.'], if quick { 6 } else { 7 });
     let names: [&[u8]; 3] = [b"read/1", b"read/2", b""];
-    let hf: Vec<(usize, usize, String)> = hn.par_iter().enumerate().flat_map_iter(|(i, b)| names.iter().enumerate().filter_map(|(j, nm)| hashn_case(b, nm, &table).map(|m| (i, j, m))).collect::<Vec<_>>()).collect();
-    for (i, j, m) in hf.iter().take(5) {
-        rep.violation(Violation { signature: "hashed-n-not-a-function".into(), case: json!({"hashn": hn[*i], "name": names[*j]}), detail: format!("from_acgt_bytes_hashn({:?}, {:?}): {}", String::from_utf8_lossy(&hn[*i]), String::from_utf8_lossy(names[*j]), m) });
+    let hf: Vec<(usize, usize, (String, Option<Vec<u8>>))> = hn.par_iter().enumerate().flat_map_iter(|(i, b)| names.iter().enumerate().filter_map(|(j, nm)| hashn_case(b, nm, &table).map(|m| (i, j, m))).collect::<Vec<_>>()).collect();
+    for (i, j, (m, other)) in hf.iter().take(5) {
+        rep.violation(Violation { signature: "hashed-n-not-a-function".into(), case: json!({"hashn": hn[*i], "name": names[*j], "other_input": other}), detail: format!("from_acgt_bytes_hashn({:?}, {:?}): {}", String::from_utf8_lossy(&hn[*i]), String::from_utf8_lossy(names[*j]), m) });
     }
     let subs = table.lock().unwrap();
-    let distinct_by_name: Vec<usize> = names.iter().map(|n| subs.iter().filter(|((nm, _), _)| nm == n).map(|(_, v)| *v).collect::<std::collections::BTreeSet<u8>>().len()).collect();
+    let distinct_by_name: Vec<usize> = names.iter().map(|n| subs.iter().filter(|((nm, _), _)| nm == n).map(|(_, v)| v.0).collect::<std::collections::BTreeSet<u8>>().len()).collect();
     rep.count("hashn:strings_x_names", (hn.len() * 3) as u64);
     rep.count("hashn:substituted_positions", subs.len() as u64);
     rep.extra.insert("hashn_distinct_substitutes_per_name".into(), json!(distinct_by_name));
@@ -287,7 +287,10 @@ pub fn replay(c: &Value) -> Vec<String> {
     }
     if let Some(hn) = c.get("hashn") {
         let t = Mutex::new(BTreeMap::new());
-        return hashn_case(&bytes(hn), &bytes(&c["name"]), &t).into_iter().collect();
+        if c.get("other_input").map(|o| o.is_array()).unwrap_or(false) {
+            let _ = hashn_case(&bytes(&c["other_input"]), &bytes(&c["name"]), &t);
+        }
+        return hashn_case(&bytes(hn), &bytes(&c["name"]), &t).into_iter().map(|x| x.0).collect();
     }
     vec!["unknown case".into()]
 }
